@@ -331,6 +331,12 @@ func TestCheck(t *testing.T) {
 			synctest.Test(t, func(t *testing.T) { prosumerCase(c, k) })
 		})
 	}
+	for k := 0; k < r.Pick(60, 600); k++ {
+		k := k
+		r.Case(fmt.Sprintf("prosumer-more-topics/%d", k), func(c *h.Case) {
+			synctest.Test(t, func(t *testing.T) { prosumerTopicsCase(c, k) })
+		})
+	}
 	r.Case("offline-after-heartbeat", func(c *h.Case) {
 		synctest.Test(t, func(t *testing.T) { offlineCase(c) })
 	})
@@ -650,6 +656,96 @@ func prosumerCase(c *h.Case, k int) {
 		c.Violation("out-of-order:prosumer-callbacks", fmt.Sprintf("a sequential publisher sent %v; the callback saw %v", sent, got), rep)
 	}
 	r.Distinct(fmt.Sprintf("prosumer|%d", k))
+}
+
+// prosumerTopicsCase: a Prosumer whose poll loop is already running subscribes to further
+// topics while messages for them are accepted: a greeting pushed by the broker from its
+// OnSubscribe callback (accepted before Subscribe returns) and publishes right after.
+func prosumerTopicsCase(c *h.Case, k int) {
+	r := c.R
+	rng := c.Rand()
+	w := newWorld(pollTimeout, 0)
+	defer w.close()
+	var amu sync.Mutex
+	accepted := map[int]string{} // message -> topic
+	w.broker.OnSubscribe = func(ctx context.Context, id string, topic string) {
+		if id != "consumer" {
+			return
+		}
+		msg := 1000 + len(topic)*7 + int(topic[len(topic)-1])
+		if w.broker.Push(msg, topic, id)[id] {
+			amu.Lock()
+			accepted[msg] = topic
+			amu.Unlock()
+		}
+	}
+	client := core.NewClient("mock://" + w.addr)
+	client.Timeout = 0
+	ps := push.NewProsumer(client, "consumer")
+	var mu sync.Mutex
+	got := map[string][]int{}
+	sub := func(topic string) bool {
+		_, err := ps.Subscribe(topic, func(data int) {
+			mu.Lock()
+			got[topic] = append(got[topic], data)
+			mu.Unlock()
+		})
+		return err == nil
+	}
+	topics := []string{"a", "bb", "ccc", "dddd"}[:2+k%3]
+	next := 1
+	for i, topic := range topics {
+		if !sub(topic) {
+			c.Violation("prosumer-subscribe-failed", "Subscribe("+topic+") failed", nil)
+			return
+		}
+		// publishes right after Subscribe returned, and a little later
+		for j := 0; j < 1+rng.Intn(3); j++ {
+			if w.unicast("pub", next, topic, "consumer") {
+				amu.Lock()
+				accepted[next] = topic
+				amu.Unlock()
+			}
+			next++
+			time.Sleep([]time.Duration{0, 0, time.Millisecond}[rng.Intn(3)])
+		}
+		if i == 0 {
+			time.Sleep(time.Duration(rng.Intn(3)) * time.Millisecond) // let the poll loop get going
+		}
+	}
+	time.Sleep(2*pollTimeout + 50*time.Millisecond)
+	for _, topic := range topics {
+		ps.Unsubscribe(topic)
+	}
+	time.Sleep(2*pollTimeout + 50*time.Millisecond)
+	mu.Lock()
+	defer mu.Unlock()
+	amu.Lock()
+	defer amu.Unlock()
+	r.Eval(int64(len(accepted)))
+	rep := map[string]interface{}{"scenario": "prosumer-more-topics", "topics": topics, "accepted": fmt.Sprint(accepted), "callbacks": fmt.Sprint(got)}
+	count := map[int]int{}
+	for topic, msgs := range got {
+		for _, m := range msgs {
+			count[m]++
+			if accepted[m] != topic {
+				c.Violation("wrong-topic:prosumer", fmt.Sprintf("message %d accepted for %q reached the callback of %q", m, accepted[m], topic), rep)
+			}
+		}
+	}
+	for m, topic := range accepted {
+		switch {
+		case count[m] == 0:
+			kind := "publish"
+			if m >= 1000 {
+				kind = "greeting-from-OnSubscribe"
+			}
+			c.Violation("lost:prosumer-later-topic:"+kind, fmt.Sprintf("message %d accepted for topic %q (subscribed while the poll loop was running) never reached its callback; callbacks saw %v", m, topic, got), rep)
+		case count[m] > 1:
+			c.Violation("delivered-twice:prosumer", fmt.Sprintf("message %d reached callbacks %d times", m, count[m]), rep)
+		}
+	}
+	r.Distinct(fmt.Sprintf("prosumer-topics|%d", k))
 }
 
 // offlineCase: a client that stops polling beyond the heartbeat goes offline; its pending
